@@ -1,4 +1,6 @@
 import Orca.Lemmas.BlockAlt
+import Orca.Gen.ResolverOutline
+import Orca.Model.ResolverOutlineSpec
 import Orca.Lemmas.StackAlt
 /-!
 # C21 — block alternate replaces exactly the selected construct
@@ -175,3 +177,10 @@ example :
   decide
 
 end Orca.Lower
+
+/-- **The tie to the source (regenerated on every run).** The skeletons of `plan_resolution_block_alt` and
+    `discard_special_instrumentation` are what `planBlockAlt` / `discardSpecial` and the `retain_end` rule were transcribed from. -/
+theorem c21_block_alt_code_reviewed :
+    Orca.Gen.Outline.plan_resolution_block_alt = Orca.Lower.Outline.plan_resolution_block_alt
+    ∧ Orca.Gen.Outline.discard_special_instrumentation = Orca.Lower.Outline.discard_special_instrumentation :=
+  ⟨rfl, rfl⟩
